@@ -106,7 +106,7 @@ DimsOf(c, n, r) ==
   ELSE IF r.lvl > 0 /\ r.cell.t \in {"c", "a"} THEN c.code[r.cell.d].dims
   ELSE <<>>
 
------------------------------------------------------------------------------------------------------------------------------------------------------
+-----------------------------------------------------------------------------
 (* expressions: one pass gives the value AND the accesses the evaluation performs, in C evaluation  *)
 (* order (?: && || short-circuit).  Ev(e, c) = [v |-> value, r |-> <<access records>>]             *)
 IsMI(e) == Len(e.i) = 1 /\ e.i[1].k = "mi"
@@ -225,7 +225,7 @@ DivZero(e, c) ==
     [] e.k = "cond" -> DivZero(e.x[1], c) \/ (IF Val(e.x[1], c) # 0 THEN DivZero(e.x[2], c) ELSE DivZero(e.x[3], c))
     [] OTHER -> \E j \in 1..Len(e.x) : DivZero(e.x[j], c)
 
------
+-----------------------------------------------------------------------------
 (* the machine *)
 Ctx(K, D, mm) == [code |-> K.code, ext |-> D.ext, pl |-> D.planes[mm.pl], ini |-> mm.ini, fr |-> mm.fr, A |-> mm.A]
 
@@ -343,8 +343,6 @@ InRanges(f, rs, en) == \E k \in 1..Len(rs) : en[k] /\ rs[k][1] <= f /\ f < rs[k]
 ReadsEnabledA(D, a) ==
   /\ (a.lvl = 0 /\ a.a = "w" /\ a.k \in {"r", "u"}) => InRanges(a.f, D.woff, D.enabled)
   /\ (a.lvl = 0 /\ a.a = "c" /\ a.k \in {"r", "u"}) => InRanges(a.f, D.coff, [k \in 1..Len(D.coff) |-> TRUE])
-
-AllAcc(mm, Pred(_)) == \A j \in 1..Len(mm.acc) : Pred(mm.acc[j])
 
 \* on failure the offending access is printed so that the harness can name the site
 Judge(name, K, mm, Pred(_)) ==
